@@ -81,6 +81,94 @@ def load_known(pid):
     return known, fixed
 
 
+class _PrefixedRules:
+    def __init__(self, rules, prefix):
+        self.rules, self.prefix = rules, prefix
+
+    def __getitem__(self, k):
+        return self.rules[self.prefix + k]
+
+    def __contains__(self, k):
+        return self.prefix + k in self.rules
+
+    def get(self, k, default=None):
+        return self.rules.get(self.prefix + k, default)
+
+    def setdefault(self, k, v):
+        return self.rules.setdefault(self.prefix + k, v)
+
+
+class SubRun:
+    """A property that implies another one runs that property's rules as part of its own check: this is the view of the composing
+    Run handed to the composed check.  Rule names get the prefix `<ID>/`; a finding for which `keep(finding)` is False concerns a
+    part of the composed property that the composing one does not speak about and is dropped (listed in the evidence)."""
+
+    def __init__(self, parent, pid, keep=None):
+        self.parent, self.prefix, self.keep = parent, pid + "/", keep
+        self.pid = parent.pid
+        self.tier, self.seed = parent.tier, parent.seed
+        self.rules = _PrefixedRules(parent.rules, self.prefix)
+        self.findings = []
+        self.extra = parent.extra.setdefault("composed", {}).setdefault(pid, {})
+        self.assumptions = []
+        self.dropped = []
+
+    def say(self, s):
+        self.parent.say(s)
+
+    def rule(self, rule, description):
+        self.parent.rule(self.prefix + rule, description)
+
+    def ok(self, rule, site, construct, detail=None, nontrivial=True, sample=False):
+        self.parent.ok(self.prefix + rule, site, construct, detail=detail, nontrivial=nontrivial, sample=sample)
+
+    def fail(self, rule, site, construct, message, where=None, expected=None, found=None):
+        f = Finding(self.prefix + rule, site, str(construct), message, where, expected, found)
+        if self.keep is not None and not self.keep(f):
+            self.dropped.append(f"{f.rule} {f.site} {str(construct)[:80]}")
+            self.findings.append(f)  # the composed check's own control flow still sees it
+            return f
+        f2 = self.parent.fail(self.prefix + rule, site, construct, message, where, expected, found)
+        self.findings.append(f2)
+        return f2
+
+    def check(self, cond, rule, site, construct, message, where=None, expected=None, found=None, detail=None, nontrivial=True):
+        if cond:
+            self.ok(rule, site, construct, detail=detail, nontrivial=nontrivial)
+        else:
+            self.fail(rule, site, construct, message, where, expected, found)
+        return cond
+
+    def floor(self, rule, count, minimum, what):
+        if self.findings or self.parent.findings:
+            return
+        if count < minimum:
+            raise AnalysisError(self.prefix + rule, f"instance count {count} under the floor {minimum} ({what})")
+
+    def canary(self, rule, fired, what):
+        self.parent.canary(self.prefix + rule, fired, what)
+
+    def note_function(self, qualname):
+        self.parent.note_function(qualname)
+
+
+def compose(R, pid, run, repo, keep=None, why=""):
+    """Run the check of property `pid` inside the check of R.pid (which implies it, see `why`).  An analysis the composed check
+    cannot complete leaves the composing check's own verdict in place; it is recorded, not raised."""
+    sub = SubRun(R, pid, keep)
+    info = R.extra.setdefault("composed", {}).setdefault(pid, {})
+    info["why"] = why
+    try:
+        run(repo, sub)
+        info["status"] = "decided"
+    except AnalysisError as e:
+        info["status"] = f"undecided: {e}"[:300]
+    if sub.dropped:
+        info["findings_outside_this_property"] = sub.dropped[:20]
+    info["findings"] = len([f for f in sub.findings]) - len(sub.dropped)
+    return sub
+
+
 class Run:
     def __init__(self, pid, tier="quick", seed=0, replay=None):
         self.pid = pid
